@@ -197,7 +197,29 @@ def t_nonlin_dimension(which, D):
     return (r is True) == (D != ok), f"{which}(D={D}) raised={r}"
 
 
-TESTS = dict(stepper_shapes=t_stepper_shapes, poisson_shapes=t_poisson_shapes, dimension=t_dimension, nonlin_dimension=t_nonlin_dimension)
+def t_generator_options(gen, D, lo, hi, std_one, max_one):
+    """documented-invalid normalisation options of the generators are rejected, valid ones accepted: a non-zero mean (offset range other than
+    exactly (0, 0), zero_mean=False) cannot be combined with std_one; std_one and max_one exclude each other"""
+    ex, jnp = _ex()
+    nonzero = not (lo == 0 and hi == 0)
+    if gen == "RandomTruncatedFourierSeries":
+        mk = lambda: ex.ic.RandomTruncatedFourierSeries(D, offset_range=(lo, hi), std_one=std_one, max_one=max_one)
+    elif gen == "RandomSineWaves1d":
+        mk = lambda: ex.ic.RandomSineWaves1d(1, offset_range=(lo, hi), std_one=std_one, max_one=max_one)
+    elif gen == "GaussianRandomField":
+        mk = lambda: ex.ic.GaussianRandomField(D, zero_mean=not nonzero, std_one=std_one, max_one=max_one)
+    elif gen == "DiffusedNoise":
+        mk = lambda: ex.ic.DiffusedNoise(D, zero_mean=not nonzero, std_one=std_one, max_one=max_one)
+    else:
+        mk = lambda: ex.ic.RandomDiscontinuities(D, zero_mean=not nonzero, std_one=std_one, max_one=max_one)
+    want = (nonzero and std_one) or (std_one and max_one)
+    got = raises(mk)
+    if got == "TypeError":
+        return False, f"{gen}: TypeError instead of a documented rejection / acceptance"
+    return got == want, f"{gen}(D={D}, offset/mean range ({lo}, {hi}), std_one={std_one}, max_one={max_one}): {'rejected' if got else 'accepted'}, documented: {'invalid' if want else 'valid'}"
+
+
+TESTS = dict(generator_options=t_generator_options, stepper_shapes=t_stepper_shapes, poisson_shapes=t_poisson_shapes, dimension=t_dimension, nonlin_dimension=t_nonlin_dimension)
 
 
 def witness(ctx):
@@ -211,6 +233,11 @@ def witness(ctx):
             if D == 3 and not ctx.deep and name not in ("NavierStokesVelocity", "KolmogorovFlowVelocity"):
                 continue
             ctx.check("stepper_shapes", dict(cls=name, D=D, N=6))
+    for gen in ("RandomTruncatedFourierSeries", "RandomSineWaves1d", "GaussianRandomField", "DiffusedNoise", "RandomDiscontinuities"):
+        ranges = ((0.0, 0.0), (0.0, 1.0), (0, 3), (-1.0, 0.0), (-1.0, 1.0), (0.5, 0.5)) if gen in ("RandomTruncatedFourierSeries", "RandomSineWaves1d") else ((0.0, 0.0), (0.0, 1.0))
+        for lo, hi in ranges:
+            for so, mo in ((False, False), (True, False), (False, True), (True, True)):
+                ctx.check("generator_options", dict(gen=gen, D=1 + (ctx.seed + len(gen)) % 3 if gen != "RandomSineWaves1d" else 1, lo=lo, hi=hi, std_one=so, max_one=mo))
     for D in (1, 2, 3):
         ctx.check("poisson_shapes", dict(D=D, N=6))
         for which in ("VorticityConvection2d", "VorticityConvection2dKolmogorov", "ProjectedConvection3d", "ProjectedConvection3dKolmogorov"):
